@@ -192,7 +192,7 @@ void checkOrder(Ctx &c, const KnotCase &kc) {
                   knotStr(kc) + " function i=" + std::to_string(i) + ": " +
                       v.why);
       if constexpr (!ST<T>::exact)
-        if (kc.wellScaled)
+        if (kc.wellScaled && p <= 6)  // the C16 family: orders up to 6
           c.violation("C16", "generate/" + tag, knotStr(kc) + " " + v.why);
       return;
     }
